@@ -287,14 +287,20 @@ def run(ctx):
                 fi, paths = own_method_paths(ctx, cls, "__init__")
                 dst = ("param", "**mapping") if cls == "Enum" else ("param", "**flags")
                 good = False
+                every = True
                 for p in paths:
+                    inner_iters = [e for e in p.events if e.kind == "ITER" and len(e.loops) >= 2]
+                    if inner_iters and not any(e.kind == "STORE" and e["base"] == dst for e in p.events):
+                        every = False       # an entry of a merged enum class was skipped (e.g. a member whose value is 0)
+                    if any(e.kind == "STORE" and e["base"] == dst and any(g != e["key"][1] and N.contains(g, e["key"][1]) for g in p.guards()) for e in p.events if e.kind == "STORE" and e["key"][0] == "attr"):
+                        every = False       # the store is conditional on the entry
                     st = [e for e in p.events if e.kind == "STORE" and e["base"] == dst]
                     wr = [e for e in p.events if e.kind == "SELFWRITE" and e["base"] == SELF and e["attr"] in ("encmapping", "decmapping", "flags")]
                     if st:
                         e = st[0]
                         good = e["key"][0] == "attr" and e["key"][2] == "name" and e["value"][0] == "attr" and e["value"][2] == "value" and e["key"][1] == e["value"][1] \
                             and all(p.index(e) < p.index(w) for w in wr) and bool(wr)
-                ctx.ob("C12.R2", fi, good, "enum law `%s`: entries of merged enum classes are written as name -> value into the keyword mapping before the tables are derived" % text, key=key, loc=loc)
+                ctx.ob("C12.R2", fi, good and every, "enum law `%s`: every entry of a merged enum class is written, unconditionally, as name -> value into the keyword mapping before the tables are derived" % text, key=key, loc=loc)
                 continue
             raise ValueError("no discharge method")
         except (ValueError, SyntaxError, IndexError, KeyError, TypeError) as e:
